@@ -96,3 +96,36 @@ def union_assignment_switches_option(first: int, v: int) -> bool:
     if raised:
         return not (0 <= v <= 255) and held == [first == 0, first == 1, first == 2]     # a rejected assignment changes nothing
     return 0 <= v <= 255 and held == [True, False, False] and u.a == v
+
+
+# ------------------------------------------------------------------------------------------------ float fields (finite split)
+import math  # noqa: E402
+
+_FMAX = {"h": 65504.0, "g": 3.4028234663852886e38}
+# candidate values around both bounds of each narrow float type, the next representable doubles, far outside, and the non-finite ones
+_FVALS = [0.0, -0.0, 0.1, 1.0, 65504.0, 65504.00000000001, 65505.0, 65520.0, 70000.0, -65504.0, -65504.00000000001, -70000.0,
+          3.4028234663852886e38, 3.4028234663852889e38, 3.5e38, 1e39, -3.4028234663852886e38, -3.4028234663852889e38, -1e39,
+          1.7976931348623157e308, math.inf, -math.inf, math.nan]
+
+
+def float_setter_validates(field: int, vi: int) -> bool:
+    """
+    pre: 0 <= field <= 1 and 0 <= vi < len(_FVALS)
+    post: _
+    """
+    # "raises ValueError if the value is finite and outside of the permitted range": decided on the value GIVEN, not on a narrowed one
+    name = "hg"[field]
+    v = _FVALS[vi]
+    o = pt.S_1_0()
+    try:
+        setattr(o, name, v)
+        raised = False
+    except ValueError:
+        raised = True
+    must_raise = math.isfinite(v) and not (-_FMAX[name] <= v <= _FMAX[name])
+    if raised != must_raise:
+        return False
+    if raised:
+        return True
+    got = getattr(o, name)
+    return (math.isnan(got) and math.isnan(v)) or got == v          # stored as given
